@@ -166,8 +166,10 @@ class Check(Property):
         T = {
             "clip": lambda: ((a, Q(2.0, ub) if variant != 2 else Q(2.0, "second"), cq.to(ub).max() if variant != 2 else cq.max()), {}),
             "where": lambda: ((va > 4, a, b), {}),
-            "interp": lambda: ((a, Q(np.array([0.0, 5.0, 10.0, 20.0]), ua).to(ub) if variant != 2 else Q(np.array([0.0, 5.0, 10.0, 20.0]), "second"),
-                                Q(np.array([1.0, 2.0, 4.0, 8.0]), "second")), {}),
+            # sample points 3.5..7.5 (the values are the integers 1..9: no ties at a sample point): what lies outside takes the fill value given for that side
+            "interp": lambda: ((a, Q(np.array([3.5, 5.5, 6.5, 7.5]), ua).to(ub) if variant != 2 else Q(np.array([3.5, 5.5, 6.5, 7.5]), "second"),
+                                Q(np.array([1.0, 2.0, 4.0, 8.0]), "second")),
+                               {"left": Q(-100.0, "second"), "right": Q(0.25, "minute")} if variant != 2 and idx != 0 else {}),
             "linspace": lambda: ((Q(1.0, ua), Q(9.0, ua).to(ub) if variant != 2 else Q(9.0, "second"), 5), {}),
             "append": lambda: ((a, b), {}), "insert": lambda: ((a, 1, b), {}), "delete": lambda: ((a, 1), {}),
             "searchsorted": lambda: ((np.sort(a), b), {}),
@@ -477,7 +479,8 @@ class Check(Property):
                 return f(args[0].magnitude, dx=kw["dx"].magnitude), first * kw["dx"].units
             if cls == "interp":
                 x, xp, fp = args
-                return f(x.to(xp.units).magnitude, xp.magnitude, fp.magnitude), fp.units
+                fill = {k_: v_.to(fp.units).magnitude for k_, v_ in kw.items() if k_ in ("left", "right")}
+                return f(x.to(xp.units).magnitude, xp.magnitude, fp.magnitude, **fill), fp.units
             if cls == "einsum":
                 return f(args[0], args[1].magnitude, args[2].magnitude), args[1].units * args[2].units
             if cls == "meshgrid":
